@@ -51,6 +51,17 @@ OBLIGATIONS = [
     "SkVerif.C15.arr3_tab2_nested_arr3_univariate",
     "SkVerif.C15.arr3_tab2_nested_concat",
     "SkVerif.C15.tab2_to_nested_array_cells_rejected",
+    "SkVerif.C15.nested_to_long",
+    "SkVerif.C15.long_rows_complete",
+    "SkVerif.C15.sortVars_spec",
+    "SkVerif.C15.nested_long_nested",
+    "SkVerif.C15.nested_long_nested_partial",
+    "SkVerif.C15.long_roundtrip_loses_names",
+    "SkVerif.C15.long_roundtrip_mislabels_default_names",
+    "SkVerif.C15.long_row_order_irrelevant",
+    "SkVerif.C15.nested_to_long_reserved_name_rejected",
+    "SkVerif.C15.nested_to_long_reserved_witness",
+    "SkVerif.C15.arr3_nested_duplicate_names_drop_columns",
 ]
 TRUSTED = [
     "hand-written model SkVerif/Model/Panel.lean of data_processing.py / check_X: pandas and numpy primitives (np.stack, reshape, swapaxes, "
@@ -435,11 +446,7 @@ def denote(tok):
             t = len({b for _, b, _ in d})
             if len(d) != n * t * len(names):
                 return None
-            try:
-                vals = [[[d[(i, q, nm)] for q in range(t)] for nm in names] for i in range(n)]
-            except KeyError:
-                return None
-            return ("L", names, vals, {"inst": p[1], "time": p[2], "dim": p[3]})
+            return ("L", names, d, {"inst": p[1], "time": p[2], "dim": p[3], "n": n, "t": t})
     except Exception:
         return None
     return None
@@ -542,8 +549,28 @@ def _walk(c, toks, fails):
             kind = "T" if onames is None else "Tpd"
             meta = {}
             continue
-        if op == "2n":
-            pass                                     # exp already is one long series per instance
+        if okind == "L":
+            # a long table holds one row per (instance, time, variable); the order of its rows is not part of the property
+            wshape = (len(exp), len(exp[0]), len(exp[0][0]))
+            if names is None or len(names) != wshape[1]:
+                return
+            want = {(i, q, names[j]): exp[i][j][q] for i in range(wshape[0]) for j in range(wshape[1]) for q in range(wshape[2])}
+            if set(onames) != set(names) and set(k3[2] for k3 in ovals) != set(names):
+                fails.append((site + ":names-not-preserved", "hop %d %r: variable identifiers %r, expected %r" % (hi, h, onames, names)))
+                return
+            if (ometa["n"], len(onames), ometa["t"]) != wshape:
+                fails.append((site + ":shape", "hop %d %r: long table of %d instances x %d variables x %d time points, expected %r" % (hi, h, ometa["n"], len(onames), ometa["t"], wshape)))
+                return
+            if ovals != want and named:
+                fails.append((op + ":named-series-cells:values", "Series cells carrying a name (%s): %s moved values between variables" % (start["snames"], op)))
+                return
+            if ovals != want:
+                bad = [k3 for k3 in want if ovals.get(k3) != want[k3]][:3]
+                fails.append((site + ":values", "hop %d %r: long table entries differ from the original panel at %r" % (hi, h, bad)))
+                return
+            kind = "L"
+            meta = ometa
+            continue
         shape = (len(ovals), len(ovals[0]) if ovals else 0, len(ovals[0][0]) if ovals and ovals[0] else 0)
         wshape = (len(exp), len(exp[0]), len(exp[0][0]))
         if shape != wshape and op == "3n" and pnames is not None and not _distinct(pnames):
@@ -560,6 +587,8 @@ def _walk(c, toks, fails):
         if ovals != exp:
             fails.append((site + ":values", "hop %d %r: values/order differ from the original panel: got %r expected %r" % (hi, h, ovals[:2], exp[:2])))
             return
+        if okind == "N" and op in ("3n", "mn", "2n") and ometa.get("kinds") != [h[2]]:
+            fails.append((site + ":cell-container", "hop %d %r: cells are %r, the requested container is %r" % (hi, h, ometa.get("kinds"), h[2])))
         # ---- names
         if okind in ("N", "M", "L"):
             if len(onames) != wshape[1]:
@@ -629,11 +658,13 @@ def oracle(c, out):
     via_long = any(h[0] == "ln" for h in c["hops"])
     via_2d = any(OUT[h[0]] == "T" for h in c["hops"][:-1]) and len(c["panel"]["vals"][0]) > 1   # a 2-D table has no column boundaries
     if not via_long and not via_2d:
-        if dd[2] != pd_[2]:
+        if dd[0] == "L" and pd_[0] == "L" and dd[1] is not None and pd_[1] is not None and sorted(map(str, dd[1])) != sorted(map(str, pd_[1])):
+            pass        # names not carried on one of the ways: compared below only when carried
+        elif dd[2] != pd_[2]:
             fails.append(("path:differs-from-direct", "path %r gives other values than the direct conversion %r" % ([h[0] for h in c["hops"]], c["direct"][0])))
         carried = all(OUT[h[0]] in ("N", "M", "L") for h in c["hops"]) and c["start"]["k"] in ("N", "M", "L") and all(
             (h[1] if h[0] in ("3n", "2n") else h[3] if h[0] == "3m" else h[4] if h[0] == "ln" else None) is None for h in c["hops"])
-        if carried and dd[1] != pd_[1]:
+        if carried and (dd[1] != pd_[1] if dd[0] != "L" else set(dd[1]) != set(pd_[1])):
             fails.append(("path:names-differ-from-direct", "path %r gives names %r, direct conversion %r" % ([h[0] for h in c["hops"]], pd_[1], dd[1])))
     return fails
 
